@@ -579,6 +579,18 @@ def scenario_oracle_raw(case, obs):
                 return ("reconfig-lost-no-retransmit", "a RE-CONFIG datagram was lost and the stream reset never completes")
             return ("close-incomplete", f"close() on ep{ep} channel #{i} (id {ch['id']}): local {ch['state']}, "
                                         f"peer {[c2['state'] for c2 in theirs]}")
+    # a stream whose reset completed in both directions (no channel registered under the id on either side) starts
+    # afresh: no receive-side state may survive it - a later channel reusing the id would inherit the old expected
+    # sequence number (harmless until the old stream had carried more than 2^15 messages, then the new channel never
+    # opens) and whatever fragments were still waiting
+    if obs.get("healed_rounds") is not None and not obs.get("reset_overtook_data") and not obs.get("reset_hit_reused_id") \
+            and not reconfig_lost(obs) and not any(obs.get("reconfig_pending", [])):
+        for ep in (0, 1):
+            for sid, seq, waiting in obs.get("inbound", [[], []])[ep]:
+                if sid not in obs["registered"][0] and sid not in obs["registered"][1] and (seq != 0 or waiting):
+                    return ("stale-inbound-stream-after-reset",
+                            f"ep{ep} still holds receive state for stream {sid} (expects sequence number {seq}, {waiting} chunk(s) "
+                            "waiting) although the stream was reset in both directions and no channel uses the id")
     return None
 
 
